@@ -6,7 +6,7 @@
 use crate::common::*;
 use std::collections::BTreeMap;
 
-pub const CORPUS: [&str; 44] = [
+pub const CORPUS: [&str; 60] = [
     "a |> f",
     "a |> f ?? g => h",
     "a => f <| b <= g !> h",
@@ -53,6 +53,24 @@ pub const CORPUS: [&str; 44] = [
     // user identifiers that look like generated ones
     "a |> |__v| __v + 1, b ?? |___x| (), let __r9 = c ~|> |____w| ____w",
     "let z = a, b, let y = c ~=> { let z = z; move |v| v + z } ~|> g, d ~|> h ~|> i ~|> j, then => hh",
+    // 44..: related invocations — operands whose proper prefixes are themselves invocations (some of them REJECTED: "half typed"),
+    // followed by an operator look-alike in the complete form; the same text once in expression and once in type position
+    "Ok::<u8, ()>(1) |> |v| -> u16 { v as u16 + 1 }, b => |v| Ok(v + 1), map => h",
+    "Ok::<u8",
+    "Ok::<u8, ()>(1) |> |v|",
+    "it =>[] Map<u8, u8>, c |> f",
+    "it =>[] Map<u8",
+    "p =>[] Map<K, V>, o |> |v| v + 1",
+    "p <-> K, V, Vec<K>, Map<V, K>",
+    "Map < K, K < V, Map < V",
+    "Map < K |> |less| !less",
+    "it =>[] _, b |> g",
+    "_ |> f",
+    "a |> |v| -> Vec<u8> { v }, b",
+    "a |> |v| -> Vec<u8",
+    "Vec < u8 |> |b| !b, c",
+    "it =>[] Vec<u8, A>, c",
+    "a ^@ Map < K, |x, y| x, b",
 ];
 
 fn units(which: &str) -> Vec<(usize, usize)> {
@@ -60,18 +78,25 @@ fn units(which: &str) -> Vec<(usize, usize)> {
     let mut v = vec![];
     for (i, c) in CORPUS.iter().enumerate() {
         for cfg in 0..8 {
+            let rel_cfg = if i % 5 == 0 { 5 } else { 1 };
+            if which == "rel" && !(i >= 44 && cfg == rel_cfg) {
+                continue;
+            }
             if which == "core"
-                && !(i % 4 == 1 && (cfg == 0 || cfg == 1 || cfg == 5)
-                    || i == 5 && cfg == 3
-                    || i == 33 && cfg == 4
-                    || i == 40 && (cfg == 0 || cfg == 1)
-                    || i == 41 && (cfg == 2 || cfg == 3)
-                    || i == 42 && (cfg == 0 || cfg == 4)
-                    || i == 10 && cfg == 2)
+                && !(i < 44
+                    && (i % 4 == 1 && (cfg == 0 || cfg == 1 || cfg == 5)
+                        || i == 5 && cfg == 3
+                        || i == 33 && cfg == 4
+                        || i == 40 && (cfg == 0 || cfg == 1)
+                        || i == 41 && (cfg == 2 || cfg == 3)
+                        || i == 42 && (cfg == 0 || cfg == 4)
+                        || i == 10 && cfg == 2))
             {
                 continue;
             }
-            if matches!(expand_str(c, cfg), Outcome::Ok(_)) {
+            // accepted invocations, and — for the related group — regularly rejected ones too (their diagnostic is their output)
+            let o = expand_str(c, cfg);
+            if matches!(o, Outcome::Ok(_)) || (i >= 44 && o.is_rejection()) {
                 v.push((i, cfg));
             }
         }
@@ -100,6 +125,7 @@ pub fn run(args: &[String]) {
             print!("{}", expand_out(i, cfg));
         }
         "hist" => hist(args),
+        "typing" => typing(args),
         "conc" => conc(args),
         _ => std::process::exit(2),
     }
@@ -193,6 +219,90 @@ fn hist(args: &[String]) {
         nviol,
         viols.join(","),
         us.iter().take(3).map(|(i, c)| format!("{{\"invocation\":{}}}", jesc(&format!("{}!{{ {} }}", CONFIG_NAMES[*c], CORPUS[*i])))).collect::<Vec<_>>().join(","),
+        t0.elapsed().as_secs_f64()
+    );
+}
+
+fn out_of(s: &str, cfg: usize) -> String {
+    match expand_str(s, cfg) {
+        Outcome::Ok(s) => s,
+        o => format!("NOT-OK {:?}", o),
+    }
+}
+
+/// "typing sessions": for every corpus entry E (accepted configs) and every proper top-level token prefix P of E — most of them
+/// rejected invocations — the histories [P, E, P] (E must equal its fresh-process output, P must give the same outcome before and
+/// after), and the two cumulative sessions P1, P2, .., E and E, .., P2, P1 (typing forwards / deleting backwards) in one process.
+fn typing(args: &[String]) {
+    let shard: usize = args.get(1).and_then(|s| s.parse().ok()).unwrap_or(0);
+    let nshards: usize = args.get(2).and_then(|s| s.parse().ok()).unwrap_or(1);
+    let t0 = std::time::Instant::now();
+    let us = units("all");
+    let mine: Vec<(usize, usize)> = us.iter().cloned().enumerate().filter(|(k, _)| k % nshards == shard).map(|(_, u)| u).collect();
+    let base = baselines(&mine);
+    let (mut histories, mut expansions, mut nviol, mut prefixes_rejected, mut prefixes) = (0u64, 0u64, 0u64, 0u64, 0u64);
+    let mut viols: Vec<String> = vec![];
+    let mut bad = |input: &str, cfg: usize, what: String, h: Vec<String>, viols: &mut Vec<String>, nviol: &mut u64| {
+        *nviol += 1;
+        if viols.len() < 6 {
+            viols.push(format!(
+                "{{\"input\":{},\"config\":{},\"what\":{},\"history\":[{}]}}",
+                jesc(input),
+                jesc(CONFIG_NAMES[cfg]),
+                jesc(&what),
+                h.iter().map(|s| jesc(s)).collect::<Vec<_>>().join(",")
+            ));
+        }
+    };
+    for &(i, cfg) in &mine {
+        let e = CORPUS[i];
+        let trees: Vec<proc_macro2::TokenTree> = match <proc_macro2::TokenStream as std::str::FromStr>::from_str(e) {
+            Ok(ts) => ts.into_iter().collect(),
+            Err(_) => continue,
+        };
+        let pre: Vec<String> = (1..trees.len()).map(|k| trees[..k].iter().cloned().collect::<proc_macro2::TokenStream>().to_string()).collect();
+        let b = &base[&(i, cfg)];
+        for p in &pre {
+            prefixes += 1;
+            let p1 = out_of(p, cfg);
+            let e1 = out_of(e, cfg);
+            let p2 = out_of(p, cfg);
+            histories += 1;
+            expansions += 3;
+            if p1.starts_with("NOT-OK") {
+                prefixes_rejected += 1;
+            }
+            if &e1 != b {
+                bad(e, cfg, "output after a prefix of the same invocation was expanded (typing history) differs from the output as first expansion of a fresh process".into(), vec![p.clone(), e.to_string()], &mut viols, &mut nviol);
+            }
+            if p1 != p2 {
+                bad(p, cfg, "the outcome of a (partial) invocation changed after the complete invocation was expanded in between".into(), vec![p.clone(), e.to_string(), p.clone()], &mut viols, &mut nviol);
+            }
+        }
+        // cumulative sessions
+        let fwd: Vec<String> = pre.iter().map(|p| out_of(p, cfg)).collect();
+        let e1 = out_of(e, cfg);
+        let bwd: Vec<String> = pre.iter().rev().map(|p| out_of(p, cfg)).collect();
+        let e2 = out_of(e, cfg);
+        histories += 2;
+        expansions += 2 * pre.len() as u64 + 2;
+        if &e1 != b || &e2 != b {
+            bad(e, cfg, "output at the end of a typing session (every token prefix expanded first, forwards / then backwards) differs from the output as first expansion of a fresh process".into(), pre.clone(), &mut viols, &mut nviol);
+        }
+        if fwd.iter().zip(bwd.iter().rev()).any(|(a, b)| a != b) {
+            bad(e, cfg, "a prefix of the invocation gives different outcomes when typed forwards and when reached again backwards".into(), pre.clone(), &mut viols, &mut nviol);
+        }
+    }
+    println!(
+        "{{\"mode\":\"c20typing\",\"units\":{},\"inputs\":{},\"histories\":{},\"expansions\":{},\"prefixes\":{},\"prefixes_rejected\":{},\"nviol\":{},\"viols\":[{}],\"samples\":[],\"secs\":{:.1}}}",
+        mine.len(),
+        histories,
+        histories,
+        expansions,
+        prefixes,
+        prefixes_rejected,
+        nviol,
+        viols.join(","),
         t0.elapsed().as_secs_f64()
     );
 }
